@@ -243,6 +243,12 @@ def syncml_doc(dump, rng, inner_docs):
     body += t(b'Item')
     if meta_where == 'item':
         body += meta()
-    body += t(b'Data') + payload + b'\x01' + b'\x01' + b'\x01' + b'\x01' + b'\x01'
+    elif meta_where == 'cmd' and rng.random() < 0.3:
+        # the item has a <Meta> of its own that says nothing about the type (the command's <Meta> does)
+        body += t(b'Meta') + t(b'Format') + s(b'b64') + b'\x01' + b'\x01'
+    body += t(b'Data')
+    if rng.random() < 0.15:
+        body += t(b'MoreData', content=False)        # an element beside the (CDATA / embedded) payload
+    body += payload + b'\x01' + b'\x01' + b'\x01' + b'\x01' + b'\x01'
     pub = lang['pub']['wbxml']
     return bytes([2]) + mb(pub) + mb(106) + mb(0) + body
